@@ -863,16 +863,57 @@ func c06ParamChain(e *Env, chk *ssa.Function) {
 		}
 	}
 	// link 4: checkMidHandlerContainer passes its own parameters to the predicates
-	if chk != nil && len(chk.Params) >= 4 {
+	if chk != nil && len(chk.Params) >= 2 {
+		// "the pass's X": the parameter named X, or the field named X of a parameter that groups the values of one pass
+		passValue := func(v ssa.Value, name string) bool {
+			v = core.Unwrap(v)
+			if p, isP := v.(*ssa.Parameter); isP {
+				return p.Parent() == chk && p.Name() == name
+			}
+			var base ssa.Value
+			var fl string
+			var okF bool
+			switch x := v.(type) {
+			case *ssa.Field:
+				_, fl, okF = core.FieldOf(x)
+				base = x.X
+			case *ssa.UnOp:
+				if fa, isFA := x.X.(*ssa.FieldAddr); isFA && x.Op == token.MUL {
+					_, fl, okF = core.FieldOf(fa)
+					base = fa.X
+				}
+			}
+			if !okF || fl != name {
+				return false
+			}
+			for i := 0; i < 4 && base != nil; i++ {
+				switch b := base.(type) {
+				case *ssa.Parameter:
+					return b.Parent() == chk
+				case *ssa.UnOp:
+					base = b.X
+				case *ssa.Alloc:
+					// a parameter spilled to a local cell
+					for _, st := range core.StoresToCell(b) {
+						if pp, isP := st.Val.(*ssa.Parameter); isP && pp.Parent() == chk {
+							return true
+						}
+					}
+					return false
+				default:
+					return false
+				}
+			}
+			return false
+		}
 		for _, l := range []struct {
 			callee string
-			param  int
 			what   string
-		}{{"udp/client.midElement.IsExpired", 2, "maxRetransmit"}, {"udp/client.midElement.Retransmit", 3, "acknowledgeTimeout"}} {
+		}{{"udp/client.midElement.IsExpired", "maxRetransmit"}, {"udp/client.midElement.Retransmit", "acknowledgeTimeout"}} {
 			cs := core.CallsNamed(chk, l.callee)
 			ok := len(cs) > 0
 			for _, c := range cs {
-				if core.Unwrap(core.Arg(c, 2)) != ssa.Value(chk.Params[l.param]) {
+				if !passValue(core.Arg(c, 2), l.what) {
 					ok = false
 				}
 			}
